@@ -29,7 +29,7 @@ def base_blocks(rng):
 def layout(tokens, rng, style):
     """join tokens with separators in the given style; returns text"""
     seps = {'plain': [' '], 'lines': [' ', ' ', '\n', '\n\n'], 'comments': [' ', ' /* note */ ', ' // rest of line\n', ' /* two\nlines */ ', '\n'],
-            'continuation': [' ', ' \\\n', '\n'], 'mixed': [' ', '  ', '\n', '\n\n', ' /* c */ ', ' // c\n', ' \\\n', '\t', ' /* a\nb\nc */ ']}[style]
+            'continuation': [' ', ' \\\n', '\n'], 'crlf': [' ', '\r\n', '\r\n\r\n', ' \r\n', '\n'], 'mixed': [' ', '  ', '\n', '\n\n', ' /* c */ ', ' // c\n', ' \\\n', '\t', ' /* a\nb\nc */ ']}[style]
     lead = rng.choice(['', '', '\n', '\n\n\n', '  ', '// head\n']) if style != 'plain' else ''
     out = lead
     for k, t in enumerate(tokens):
@@ -40,7 +40,7 @@ def layout(tokens, rng, style):
 
 
 def esc(t):
-    return t.replace('&', '&amp;').replace('<', '&lt;').replace('>', '&gt;')
+    return t.replace('&', '&amp;').replace('<', '&lt;').replace('>', '&gt;').replace('\r', '&#13;')      # a literal CR would be normalised away by the XML parser
 
 
 NOSHAPE = (0, 0, 0, 0)
@@ -170,7 +170,7 @@ def check(run):
     if drv is None:
         run.tie_broken('extraction of the position model', err)
         return run.finish('proof')
-    styles = ['plain', 'lines', 'comments', 'continuation', 'mixed']
+    styles = ['plain', 'lines', 'comments', 'continuation', 'mixed', 'crlf']
     cases = []
     nmodels = 40 if thorough else 8
     for mi in range(nmodels):
@@ -294,7 +294,7 @@ def check(run):
     if pmism:
         run.tie_broken('line/column model vs implementation on undeclared-identifier faults', pmism[:5] + [dict(total=len(pmism))])
     run.cov.update(evaluations=len(cases), distinct_nontrivial=len({c['xml'] for c in cases}), traces_validated_against_impl=len(qmeta),
-                   rule='%d base models x 14 text blocks x 7 fault kinds at token positions (all positions in the thorough tier, 4 per block otherwise), laid out in 5 styles (plain, blank lines, comments incl. multi-line, '
+                   rule='%d base models x 14 text blocks x 7 fault kinds at token positions (all positions in the thorough tier, 4 per block otherwise), laid out in 6 styles (plain, blank lines, comments incl. multi-line, CRLF line ends (as character references, which survive XML line-end normalisation), '
                         'continuations, mixed); every diagnostic: XPath selects exactly one element of an independent DOM (xml.etree), line inside the element text, columns inside the line, start <= end; at least one error in the '
                         'faulted block and none elsewhere for non-declaring labels; undeclared identifiers: range predicted by the extracted Coq position model from the block\'s lexemes' % nmodels,
                    samples=samples, inert_mutations_skipped=ninert, diagnostics_checked=nerr, faults=hist, undeclared_ranges_compared=len(qmeta))
